@@ -8,7 +8,7 @@ from ..harness import Harness, FEATURE_SETS
 PROPS = "theories/Props/C05.v"
 MODULE = "Props.C05"
 SUPPORT = ["theories/Spec/Names.v", "theories/Spec/Anchors.v"]
-RS, US = "\x1e", "\x1f"
+RS, US = "\x01", "\x02"
 
 
 def reg_slot(q):
@@ -30,7 +30,7 @@ def reg_slot(q):
     match a[0] {{
         "reg" => {{
             for u in m::units() {{
-                v.push(format!("{{:?}}\\x1f{{}}\\x1f{{}}\\x1f{{}}", u, u.abbreviation(), u.singular(), u.plural()));
+                v.push(format!("{{:?}}\\x02{{}}\\x02{{}}\\x02{{}}", u, u.abbreviation(), u.singular(), u.plural()));
             }}
         }}
         "coef" => {{
@@ -45,7 +45,7 @@ def reg_slot(q):
         }}
         _ => return "BADOP".to_string(),
     }}
-    v.join("\\x1e")"""
+    v.join("\\x01")"""
 
 
 def run(ctx):
@@ -108,6 +108,8 @@ def run(ctx):
         recs = got.split(RS)
         if op == "reg":
             want = [US.join([u["name"], u["abbr"], u["sing"], u["plur"]]) for u in q["units"]]
+            # Debug of the registry enum prints `name(name)`: keep the variant name
+            recs = [r.split(US)[0].split("(")[0] + US + US.join(r.split(US)[1:]) for r in recs]
             if recs != want:
                 diff = [(a, b) for a, b in zip(recs + [None] * len(want), want + [None] * len(recs)) if a != b][:3]
                 bad.append({"quantity": qm, "what": "units() registry differs from the declared units (name, abbreviation, singular, plural; in order)",
